@@ -5,7 +5,7 @@
    (inside, strictly_inside, subdivision, edge_neighbour, same_triangle_set, total_area, lattice_children, lattice_neighbours) is Model/C20Spec.v.
    HEIGHT_FACTOR is the universally quantified [h] ([T ROps] is [R]). *)
 From Coq Require Import ZArith List Bool Reals Lra.
-From PAV Require Import Base.Res Base.NumOps Model.C20 Model.C20Spec Proofs.C20.
+From PAV Require Import Base.Res Base.NumOps Model.C20 Model.C20Spec Model.C20Scale Proofs.C20 Proofs.C20Hist Proofs.C20Scale.
 Import ListNotations.
 Local Open Scope R_scope.
 
@@ -144,6 +144,22 @@ Theorem C20_coordinate_up_sample_cells_distinct : forall (h : T ROps) (S : cs RO
   NoDup (c_coords S) -> NoDup (c_coords (c_up_sample h S)).
 Proof. exact (@c_up_sample_coords_distinct ROps). Qed.
 
+(* ------------------------------------------------------------ histories: the user edits vertices[j] = p in place, then reads
+   a_edits A es is the object after the writes es (in order).  Index rows and vertex count are unchanged (so the rows stay in
+   range and every statement of this file applies to the edited object), and .triangles shows, for every corner, the LAST
+   value written to its vertex slot, or the original row if the slot was never written: a function of the current arrays. *)
+Theorem C20_read_after_edits : forall (A : @atri ROps) (es : list (nat * rpt)),
+  edits_in_range A es = true ->
+  fst (a_edits A es) = fst A /\ length (snd (a_edits A es)) = length (snd A)
+  /\ idx_in_range (a_edits A es) = idx_in_range A
+  /\ a_triangles (a_edits A es)
+     = map (fun r => (slot_after (snd A) es (i0 r), slot_after (snd A) es (i1 r), slot_after (snd A) es (i2 r))) (fst A).
+Proof. exact (@a_edits_read ROps). Qed.
+Theorem C20_edit_slots : forall (vs : list rpt) (es : list (nat * rpt)) (i j : nat) (p : rpt),
+  (forallb (fun e : nat * rpt => negb (Nat.eqb (fst e) i)) es = true -> slot_after vs es i = getv vs i)
+  /\ slot_after vs (es ++ [(j, p)]) j = p.
+Proof. intros vs es i j p. split; [exact (@slot_after_untouched ROps vs es i)|exact (@slot_after_last ROps vs es j p)]. Qed.
+
 (* ------------------------------------------------------------ selections; the two representations *)
 Theorem C20_array_for_indexes : forall (A : @atri ROps) (sel : list nat),
   idx_in_range A = true -> Forall (fun i => (i < length (fst A))%nat) sel ->
@@ -193,6 +209,19 @@ Theorem C20_checker_neighbours_are_neighbours : forall (t n : rtri),
   In n (@spec_neighbours ROps t) <-> self_or_neighbour t n.
 Proof. exact spec_neighbours_are_neighbours. Qed.
 
+(* ------------------------------------------------------------ no intrinsic length scale
+   scale_pt / scale_tri / scale_shape multiply every length by s (Model/C20Scale.v).  Every containment decision of every
+   shape is unchanged when shape and triangle are scaled together (so a triangle of side 1e-12 is treated exactly like a
+   triangle of side 1: no absolute tolerance), and subdivision, reflection and area are covariant. *)
+Theorem C20_containment_scale_invariant : forall (s : R) (sh : shape ROps) (t : rtri),
+  0 < s -> shape_mask (scale_shape s sh) (scale_tri s t) = shape_mask sh t.
+Proof. exact shape_mask_scale. Qed.
+Theorem C20_operations_scale_covariant : forall (s : R) (ts : list rtri),
+  up_sample_triangles (map (scale_tri s) ts) = map (scale_tri s) (up_sample_triangles ts)
+  /\ neighborhood_triangles (map (scale_tri s) ts) = map (scale_tri s) (neighborhood_triangles ts)
+  /\ area (map (scale_tri s) ts) = s * s * area ts.
+Proof. intros s ts. split; [apply up_sample_scale|]. split; [apply neighborhood_scale|apply area_scale]. Qed.
+
 (* ------------------------------------------------------------ non-vacuity *)
 Definition ex_t : rtri := ((0, 0), (4, 0), (1, 3)).
 Example C20_hyps_satisfiable :
@@ -209,6 +238,14 @@ Proof.
   split; [repeat constructor|]. split; [reflexivity|]. split; [reflexivity|].
   split; [repeat constructor; cbn; intuition discriminate|]. apply Rmult_le_pos; [apply sqrt_pos|lra].
 Qed.
+
+(* a history of three in-place edits (slot 1 written twice, the last write wins) on a two-triangle object *)
+Example C20_edits_satisfiable :
+  let A : @atri ROps := ([(0, 1, 2); (1, 2, 3)]%nat, [(0, 0); (4, 0); (1, 3); (5, 3)]) in
+  let es : list (nat * rpt) := [(1%nat, (7, 7)); (3%nat, (2, 2)); (1%nat, (8, 1))] in
+  edits_in_range A es = true /\ idx_in_range A = true
+  /\ a_triangles (a_edits A es) = [((0, 0), (8, 1), (1, 3)); ((8, 1), (1, 3), (2, 2))].
+Proof. cbv zeta. split; [reflexivity|]. split; reflexivity. Qed.
 
 Print Assumptions C20_count_quadruples. Print Assumptions C20_up_sample_is_subdivision.
 Print Assumptions C20_subdivision_inside_parent. Print Assumptions C20_subdivision_covers_parent.
@@ -232,3 +269,5 @@ Print Assumptions C20_array_triangle_corners_are_vertices. Print Assumptions C20
 Print Assumptions C20_array_neighborhood_rows_distinct. Print Assumptions C20_array_up_sample_vertices_distinct.
 Print Assumptions C20_coordinate_neighborhood_cells_distinct. Print Assumptions C20_coordinate_up_sample_cells_distinct.
 Print Assumptions C20_lattice_children_distinct. Print Assumptions C20_lattice_child_has_unique_parent.
+Print Assumptions C20_read_after_edits. Print Assumptions C20_edit_slots.
+Print Assumptions C20_containment_scale_invariant. Print Assumptions C20_operations_scale_covariant.
